@@ -25,7 +25,7 @@ TRANSLATOR_PARTS += ["trmatch"]
 # (translate/melody.py -> lean/MirGen/Melody.lean); Props/C04_GenMelody.lean proves the generated definitions equal to the
 # hand-written melody model for all inputs; suite `gen_melody` runs them (driver op `gen.melody`) against the real functions
 TRANSLATOR_PARTS += ["melody"]
-TRANSLATOR_PARTS += ["beat"]     # trim_beats, _get_reference_beat_variations regenerated (lean/MirGen/Beat.lean); Props/C04_GenBeat.lean; suite gen_beat
+TRANSLATOR_PARTS += ["beat"]     # trim_beats, _get_reference_beat_variations, p_score regenerated (lean/MirGen/Beat.lean); Props/C04_GenBeat.lean; suite gen_beat
 _here = os.path.dirname(os.path.abspath(__file__))
 _props = os.path.join(os.path.dirname(os.path.dirname(_here)), "lean", "MirProofs", "Props")
 LEAN_MODULES = sorted("MirProofs.Props." + os.path.basename(f)[:-5]
@@ -418,6 +418,45 @@ def _gb_prim_cases(rng, tier):
         for k in range(4):
             yield Case("pybeat.step2", [a, k], lambda a=a, k=k: gen.arr(a)[k::2], tag="prim step2",
                        info={"op": "pybeat.step2", "args": [[str(v) for v in a], k]})
+    # the p_score primitives
+    def P(op, args, call, tag):
+        from suites import beat as BS
+        return Case("pybeat." + op, args, call, tag="prim " + tag, info={"op": "pybeat." + op, "args": BS.jargs(args)})
+    for n in range(4):
+        for _ in range(3):
+            a = [Fr(rng.randint(-64, 64), 32) for _ in range(n)]
+            yield P("vmin", [a], lambda a=a: gen.arr(a).min(), "min/max")
+            yield P("vmax", [a], lambda a=a: np.max(gen.arr(a)), "min/max")
+    for q in (Fr(100), Fr(5, 2), Fr(-5, 2), Fr(0), Fr(-7), Fr(199, 2), Fr(-1, 32)):
+        yield P("truncR", [q], lambda q=q: int(float(q)), "int")
+    for n in (-2, -1, 0, 1, 3):
+        yield P("zeros", [n], lambda n=n: np.zeros(n), "zeros")
+    for n in (0, 1, 3, 5):
+        for _ in range(6):
+            t = [rng.choice([0, 0, 1]) for _ in range(n)]
+            idx = [rng.randint(-n - 1, n) for _ in range(rng.randint(0, 3))]
+
+            def store(t=t, idx=idx):
+                w = np.array(t, dtype=float)
+                w[np.array(idx, dtype=np.int64)] = 1.0
+                return w
+            yield P("setOnes", [t, idx], store, "setOnes")
+            yield P("flatnonzero", [t], lambda t=t: np.flatnonzero(np.array(t, dtype=float)), "flatnonzero")
+            v = [rng.choice([0, 1]) for _ in range(rng.choice([0, 1, 2, 4]))]
+            yield P("correlate", [t, v], lambda t=t, v=v: np.correlate(np.array(t, dtype=float), np.array(v, dtype=float), "full"),
+                    "correlate")
+    for n in range(5):
+        for _ in range(4):
+            l = [rng.randint(1, 9) for _ in range(n)]
+            if n:                                            # np.median([]) = nan (with a RuntimeWarning): via roundMul only
+                yield P("median", [l], lambda l=l: float(np.median(np.array(l, dtype=np.int64))), "median")
+            for a in (Fr(1, 5), Fr(1, 2), Fr(1, 4), Fr(3, 2), Fr(-1, 2), Fr(0)):
+                def rm(a=a, l=l):
+                    import warnings
+                    with warnings.catch_warnings():
+                        warnings.simplefilter("ignore")
+                        return int(np.round(float(a) * np.median(np.array(l, dtype=np.int64))))
+                yield P("roundMul", [a, l], rm, "int(round(thr * median))")
 
 
 def suite_gen_beat(rng, tier, shard, nshards):
@@ -457,6 +496,28 @@ def _suite_gen_beat(rng, tier, shard, nshards):
             fn = c.op.split(".", 1)[1]
             yield Case("gen.beat", [fn] + list(c.args), c.call, tol=c.tol, tag="gen " + c.tag,
                        info=dict(c.info or {}, op="gen.beat", fn=fn), nontrivial=c.nontrivial, post=c.post)
+    # p_score: the existing streams (regular / degenerate / loose pairs, every threshold incl. > 1 where the slice start wraps
+    # around, 0 and negative ones) asked of the generated definition ...
+    for name, real_op in (("beat.p_score", "beat.p_score"), ("beat.p_score_literal", "beat.p_score_literal")):
+        for c in BS.SUITES[name](rng, tier, shard, nshards):
+            if c.op == real_op:
+                yield Case("gen.beat", ["p_score"] + list(c.args), c.call, tol=c.tol, tag="gen p_score " + c.tag,
+                           info=dict(c.info or {}, op="gen.beat", fn="p_score"), nontrivial=c.nontrivial, post=c.post)
+    # ... and ALL pairs of beat lists of length <= 2 (quick) / 3 over a small lattice: empty, one beat, duplicates, all beats
+    # in one 10 ms sample, unsorted (ValueError), default threshold (None) and a wrapping one
+    plat = [Fr(5), Fr(5) + Fr(1, 128), Fr(11, 2), Fr(13, 2)]
+    lists = [list(t) for n in range(0, 3 if tier == "quick" else 4) for t in itertools.product(plat, repeat=n)]
+    k = 0
+    for r in lists:
+        for e in lists:
+            k += 1
+            if k % nshards != shard:
+                continue
+            for thr in (None, Fr(3)):
+                call = (lambda r=r, e=e: B.p_score(BS.A(r), BS.A(e))) if thr is None else \
+                    (lambda r=r, e=e, thr=thr: B.p_score(BS.A(r), BS.A(e), float(thr)))
+                yield _gb_case("p_score", [r, e, thr], call, "all pairs n<=%d" % max(len(r), len(e)),
+                               len(r) >= 2 and len(e) >= 2)
     if shard == 0:
         for c in _gb_prim_cases(rng, tier):
             yield c
